@@ -8,6 +8,7 @@ pub mod c07;
 pub mod c08;
 pub mod c09;
 pub mod c10;
+#[cfg(feature = "nostd_cfg")]
 pub mod c11;
 pub mod c12;
 pub mod c13;
@@ -52,6 +53,7 @@ pub fn registry(id: &str) -> Option<Entry> {
         "C08" => Entry { run: c08::run, replay: c08::replay, rule: "state = one valid operand; transition = floor/ceil/trunc/round/fract (inherent and num_traits::Float); judged against exact integer arithmetic on hi+lo", assumptions: BASE_ASSUME },
         "C09" => Entry { run: c09::run, replay: c09::replay, rule: "state = one integer value of one of the ten types, one TwoFloat, or one f32; transition = every conversion route (From / TryFrom by value and by reference / ToPrimitive / NumCast / FromPrimitive); judged against exact integer arithmetic", assumptions: BASE_ASSUME },
         "C10" => Entry { run: c10::run, replay: c10::replay, rule: "state = ordered operand pair (valid and reachable non-finite) or a single operand; transition = every spelling of the operation (value/reference/assignment, operand typings, trait vs inherent); oracle = the other spelling, bit-identical words (NaN == NaN; algebraic identities modulo the sign of zero words)", assumptions: BASE_ASSUME },
+        #[cfg(feature = "nostd_cfg")]
         "C11" => Entry { run: c11::run, replay: c11::replay, rule: "state = operand tuple; transition = the same public API call executed in both build configurations linked into one binary (crate twofloat with default features / the same sources compiled as tf_nostd with --no-default-features --features math_funcs); oracle = the other configuration, bit-identical words (NaN == NaN), plus exactness of new_mul's low word in both", assumptions: &["rustc/LLVM, IEEE-754 hardware", "compiling /repo/src/lib.rs a second time under another crate name with features {math_funcs} is the no_std configuration (same cfg evaluation as --no-default-features --features math_funcs)", "the libm crate flavour in use is stated in coverage.notes"] },
         "C12" => Entry { run: c12::run, replay: c12::replay, rule: "the complete finite set of 19 constants, 19 FloatConst accessors and 6 associated constants, each compared with the correctly rounded double-double of a 640-bit interval enclosure of the mathematical constant (resp. with the value derived from the exact validity predicate); plus one state per operand for the two angle conversions, judged against an interval enclosure of x*180/pi", assumptions: FN_ASSUME },
         "C13" => Entry { run: c13::run, replay: c13::replay, rule: "state = operand (pair) or (base, exponent); transition = sqrt / cbrt / hypot / powi and the Pow impls; roots judged by exact squaring/cubing inequalities in arbitrary-precision integers, powers against an interval enclosure of x^n by binary powering; exact-point, sign, identity and no-panic clauses checked literally", assumptions: FN_ASSUME },
